@@ -173,7 +173,9 @@ class SwitchDriver(MachineDriver):
         now = self.loop.time()
         return (self.state, None if self.t_change is None else min(r6(now - self.t_change), 0.5),
                 tuple(sorted(self.reg.items())),
-                tuple(sorted((r6(d - now), k) for d, k in self.pending)), self.rel_timers())
+                tuple(sorted((r6(d - now), k) for d, k in self.pending)), self.rel_timers(),
+                # the controller's own record of timed handlers (a removed handler can leave an empty deadline behind)
+                tuple(sorted((r6(k - now), len(v)) for k, v in self.m.switch_controller._active_timed_switches.get(self.sw, {}).items())))
 
     def observe(self):
         return {"log": [(r6(t - self.t0), k, v) for t, k, v in self.cblog], "state": self.sw.state}
